@@ -14,7 +14,38 @@ FC = "pasfmt::FormattingConfig"
 REPO = os.environ.get("PASFMT_REPO", "/repo")
 
 
+INT_WIDTH = {"u8": 8, "i8": 8, "u16": 16, "i16": 16, "u32": 32, "i32": 32, "u64": 64, "i64": 64, "usize": 64, "isize": 64, "u128": 128, "i128": 128}
+CONFIG_PATH_FILES = ("front-end/src/lib.rs", "front-end/src/main.rs", "orchestrator/src/command_line.rs", "orchestrator/src/formatting_orchestrator.rs")
+
+
+def config_values_are_not_narrowed(prog, rep, R):
+    """C19.f — an ill-typed (out-of-range) value is rejected, not wrapped: on the way from the option sources to the pipeline (front-end
+    crate, the orchestrator's command-line and configuration code) no integer is narrowed with `as` (a u32 read for a u8 option and
+    cast back turns 256 into 0 silently).  Widening casts are fine.  serde's own range check (`invalid value: integer 256, expected
+    u8`) is what rejects such values as long as the declared field type is what is deserialised."""
+    n = 0
+    bad = []
+    for b in prog.bodies.values():
+        if b.file not in CONFIG_PATH_FILES:
+            continue
+        for bb, i, s2 in b.stmts():
+            if s2["k"] != "assign" or s2["rv"]["k"] != "cast" or "IntToInt" not in str(s2["rv"].get("cast")):
+                continue
+            dst = str(s2["rv"].get("ty"))
+            op = s2["rv"]["op"]
+            src = str(op.get("ty")) if op["k"] == "const" else str(b.local_ty(op["place"]["l"]) if not op["place"]["p"] else "?")
+            n += 1
+            ws, wd = INT_WIDTH.get(src), INT_WIDTH.get(dst)
+            signed_change = src[:1] != dst[:1] and src[:1] in "ui" and dst[:1] in "ui"
+            if ws is None or wd is None or wd < ws or (signed_change and wd <= ws):
+                bad.append("%s:%s `%s as %s`" % (short(b.npath), s2.get("line"), src, dst))
+    rep.check(not bad, R, "no-narrowing-cast-on-the-configuration-path", "an integer is narrowed on the configuration path: an out-of-range value (256 for a u8 option) is then accepted and wraps "
+              "instead of being rejected: %s" % bad[:3], instance={"int_casts": n, "narrowing": bad[:5]})
+    rep.floor(R, "integer casts seen on the configuration path (all widening)", n, 1)
+
+
 def check_c19(prog, rep, tier, cfg):
+    config_values_are_not_narrowed(prog, rep, "C19.f")
     # ---------------------------------------------------------------- C19.a layering
     R = "C19.a"
     b = prog.body(PC + "get_config_object_from_file")
@@ -334,6 +365,7 @@ def check_c15(prog, rep, tier, cfg):
     rep.check(not muts, R, "cursor-code-calls-no-mutator", "cursor code calls token mutators: %s" % [(short(a), short(b)) for a, b in muts])
     cursor_independence(prog, rep, "C15.d")
     cursor_measures_what_is_emitted(prog, rep, "C15.e")
+    cursor_text_is_cut_byte_exactly(prog, rep, "C15.f")
 
 
 CURSOR_COLLECTION_OPS = {
@@ -413,6 +445,45 @@ def cursor_independence(prog, rep, R):
                 rep.check(ok, R, "complete-traversal:%s" % short(b.npath), "the loop over the cursors in %s %s" % (short(b.npath), why), where=c.where(), instance={"body": short(b.npath), "loop": "exits on exhaustion only"})
     rep.floor(R, "operations on cursor collections", n, 20)
     rep.ok(R, {"operations": sorted((x or "?").split("::")[-1] for x in seen)})
+
+
+LOSSY_CUTTERS = ("lines", "trim", "trim_start", "trim_end", "trim_ascii", "trim_ascii_start", "trim_ascii_end", "trim_matches", "trim_start_matches", "trim_end_matches",
+                 "split_whitespace", "split_ascii_whitespace", "split_terminator", "rsplit_terminator", "strip_suffix", "strip_prefix")
+PATTERN_CUTTERS = ("split", "rsplit", "splitn", "rsplitn", "split_once", "rsplit_once", "split_inclusive", "matches", "rmatches", "match_indices", "rmatch_indices", "find", "rfind")
+
+
+def cursor_text_is_cut_byte_exactly(prog, rep, R):
+    """C15.f — a cursor inside a multi-line token is stored as (bytes to the end of its line, line breaks after it) by process_cursors
+    and turned back into an offset by relocate_cursors: the two are inverse only if both cut the text at the same separator and
+    every byte is counted on one side.  So in the cursor-measuring code (a) text is never cut with a function whose pieces do not
+    add up to the original (`lines` drops a CR before the LF, `trim*`, `split_whitespace`, `split_terminator`, `strip_*`), and
+    (b) every separator / needle handed to split / rsplit / matches / match_indices / find / rfind is the one constant '\n'."""
+    import layout
+    roots = {x.split("::{closure")[0] for x in layout.CURSOR_BODIES}
+    bodies = [b for b in prog.bodies.values() if b.npath.split("::{closure")[0] in roots]
+    n = 0
+    bad = []
+    needles = {}
+    for b in bodies:
+        for c in b.calls():
+            cal = c.callee or ""
+            if not cal.startswith("core::str::"):
+                continue
+            nm = cal.split("::")[-1]
+            if nm in LOSSY_CUTTERS:
+                n += 1
+                bad.append("%s:%s cuts text with str::%s, whose pieces do not add up to the text (bytes go uncounted)" % (short(b.npath), c.line, nm))
+            elif nm in PATTERN_CUTTERS and len(c.args) >= 2:
+                n += 1
+                o = Origins(b).of_operand(c.args[-1] if nm not in ("splitn", "rsplitn") else c.args[2])
+                vals = sorted({("%s:%r" % (x[1], x[2])) if x[0] == "const" else str(x[0]) for x in o})
+                needles.setdefault(",".join(vals), []).append("%s:%s(%s)" % (short(b.npath), c.line, nm))
+    lf = [k for k in needles if k in ("char:10", "char:'\\n'", "char:'\n'")]
+    other = {k: v for k, v in needles.items() if k not in lf}
+    rep.check(not bad, R, "no-lossy-cutters", "cursor arithmetic cuts token text with a function that drops bytes — writer (process_cursors) and reader (relocate_cursors) of a position inside a "
+              "multi-line token then disagree by the dropped bytes, e.g. by one for every CRLF line: %s" % bad[:3], instance={"cutting_calls": n, "violating": bad[:5]})
+    rep.check(not other, R, "AGREE:line-separator", "cursor code cuts text at something other than the constant '\\n': %s" % other, instance={"needles": {k: len(v) for k, v in needles.items()}})
+    rep.floor(R, "text-cutting calls in the cursor-measuring code", n, 8)
 
 
 def cursor_measures_what_is_emitted(prog, rep, R):
